@@ -565,6 +565,7 @@ type ftInfo struct {
 	defaultDg uint64
 	defCands  [3]tsF // candidate fields 1/253/254 of the default file_id
 	dropped   []int // non-slot message numbers the file type does not give back
+	declOnly  []int // numbers with a declared typed field that Add nevertheless keeps as unrelated messages
 	unrelated []int // probed message numbers kept as unrelated messages
 }
 
@@ -723,6 +724,12 @@ func probeFileType(ft fileType) (ftInfo, error) {
 			info.unrelated = append(info.unrelated, n)
 		}
 	}
+	for n := range decl {
+		if !isSlot[n] && kind[n] != "dropped" {
+			info.declOnly = append(info.declOnly, n)
+		}
+	}
+	sort.Ints(info.declOnly)
 	// how the three candidate fields survive in each slot
 	mode := func(n int, which int) string {
 		mk := func(t tsF) mdesc {
@@ -917,7 +924,7 @@ func execFileDefProbe(args []string) string {
 	for _, in := range infos {
 		dn := fmt.Sprintf("ft%d", in.ft.b)
 		names = append(names, dn)
-		fmt.Fprintf(&sb, "def %s : FileType := {\n  name := \"%s\", gotype := \"%s\", ftype := %d, sortFrom := %d, defaultDg := 0x%016x,\n  d1 := %s, d253 := %s, d254 := %s,\n  dropped := %s,\n  slots := [\n", dn, in.ft.name, strings.TrimPrefix(fmt.Sprintf("%T", in.ft.fn()), "*"), in.ft.b, in.sortFrom, in.defaultDg, leanTsF(in.defCands[0]), leanTsF(in.defCands[1]), leanTsF(in.defCands[2]), leanNatList(in.dropped))
+		fmt.Fprintf(&sb, "def %s : FileType := {\n  name := \"%s\", gotype := \"%s\", ftype := %d, sortFrom := %d, defaultDg := 0x%016x,\n  d1 := %s, d253 := %s, d254 := %s,\n  dropped := %s, declOnly := %s,\n  slots := [\n", dn, in.ft.name, strings.TrimPrefix(fmt.Sprintf("%T", in.ft.fn()), "*"), in.ft.b, in.sortFrom, in.defaultDg, leanTsF(in.defCands[0]), leanTsF(in.defCands[1]), leanTsF(in.defCands[2]), leanNatList(in.dropped), leanNatList(in.declOnly))
 		for i, s := range in.slots {
 			sep := ","
 			if i == len(in.slots)-1 {
